@@ -11,42 +11,42 @@ var chainStub = []string{"consensus reactor / WAL / p2p: the simulator chooses p
 func init() {
 	reg(&core.Property{
 		ID: "C10", Level: "exploration",
-		Batches: []core.Batch{{Name: "no-halt", Engine: chain.Engine{Prop: "C10"}, Quick: 1000, Thorough: 40000,
+		Batches: []core.Batch{{Name: "no-halt", Engine: chain.Engine{Prop: "C10"}, Quick: 1600, Thorough: 40000,
 			Rule: "a run is non-trivial when at least three heights were produced"}},
 		Real: chainReal, Stub: chainStub,
 		Assumptions: []string{"documented precondition: the anchor validators (one per replica) stay staked and are never accused by evidence, so that a validator set can always be elected", "genesis total supply is far below 2^64"},
 	})
 	reg(&core.Property{
 		ID: "C05", Level: "exploration",
-		Batches: []core.Batch{{Name: "supply", Engine: chain.Engine{Prop: "C05"}, Quick: 1000, Thorough: 40000,
+		Batches: []core.Batch{{Name: "supply", Engine: chain.Engine{Prop: "C05"}, Quick: 1600, Thorough: 40000,
 			Rule: "a run is non-trivial when the invariants were evaluated on at least three committed blocks"}},
 		Real: chainReal, Stub: chainStub,
 		Assumptions: []string{"the oracle reads the committed state of one replica through the exported staking state API (replica agreement is C01's business)", "the in-tree supplementary sanity checker runs as a second opinion on some replicas; it is not trusted alone"},
 	})
 	reg(&core.Property{
 		ID: "C08", Level: "exploration",
-		Batches: []core.Batch{{Name: "failed-tx", Engine: chain.Engine{Prop: "C08"}, Quick: 800, Thorough: 30000,
+		Batches: []core.Batch{{Name: "failed-tx", Engine: chain.Engine{Prop: "C08"}, Quick: 1440, Thorough: 30000,
 			Rule: "a run is non-trivial when at least two failing transactions were delivered and checked on the observer replica"}},
 		Real: chainReal, Stub: chainStub,
 		Assumptions: []string{"per-transaction before/after state is observed on an extra replica that always executes on the plain-delivery path (one DeliverTx per transaction), through ApplicationState.NewContext on the in-progress block state", "whether a transaction can have passed authentication is decided by the harness from the state before it (signature made by the harness, nonce, balance >= fee)"},
 	})
 	reg(&core.Property{
 		ID: "C09", Level: "exploration",
-		Batches: []core.Batch{{Name: "auth", Engine: chain.Engine{Prop: "C09"}, Quick: 800, Thorough: 30000,
+		Batches: []core.Batch{{Name: "auth", Engine: chain.Engine{Prop: "C09"}, Quick: 1440, Thorough: 30000,
 			Rule: "a run is non-trivial when at least three transactions took effect and at least one forged, replayed or mis-sequenced transaction was refused"}},
 		Real: chainReal, Stub: chainStub,
 		Assumptions: []string{"authenticity of every envelope is known to the harness by construction (it made or broke the signature itself, re-signing under other contexts with raw ed25519 outside the oasis signature package)", "a bit-flipped envelope that decodes to the identical (blob, key, signature) triple counts as the original"},
 	})
 	reg(&core.Property{
 		ID: "C15", Level: "exploration",
-		Batches: []core.Batch{{Name: "shares", Engine: chain.Engine{Prop: "C15"}, Quick: 800, Thorough: 30000,
+		Batches: []core.Batch{{Name: "shares", Engine: chain.Engine{Prop: "C15"}, Quick: 1440, Thorough: 30000,
 			Rule: "a run is non-trivial when at least three blocks were checked and at least one deposit or reclaim was observed transaction by transaction"}},
 		Real: chainReal, Stub: chainStub,
 		Assumptions: []string{"per-transaction pool and delegation state is observed on the plain-delivery observer replica; block-boundary effects (rewards, slashing, debonding completion) are observed between committed states with the block's events", "the 'paid out <= paid in + rewards' clause is covered through its per-operation consequences (pro-rata minting/redemption, no bystander loss, price falls only by slashing), not by a cumulative ledger"},
 	})
 	reg(&core.Property{
 		ID: "C01", Level: "exploration",
-		Batches: []core.Batch{{Name: "replicas", Engine: chain.Engine{Prop: "C01"}, Quick: 1000, Thorough: 40000,
+		Batches: []core.Batch{{Name: "replicas", Engine: chain.Engine{Prop: "C01"}, Quick: 1600, Thorough: 40000,
 			Rule: "a run is non-trivial when at least three heights were produced"}},
 		Real: chainReal, Stub: chainStub,
 		Assumptions: []string{"Go map iteration order is not controllable: it is sampled (every block is executed by several replicas with independent map seeds), so replay of a map-order dependent divergence is probabilistic", "events and logs are not compared (not consensus data)"},
